@@ -370,6 +370,12 @@ def rule_start_child(ck, A):
     g = rets[0].value.id
     ck.repo.const(F, g)
     declared = any(isinstance(n, ast.Global) and g in n.names for n in q.walk_body(sc.node))
+    assigns_g = any(isinstance(n, (ast.Assign, ast.AnnAssign)) and g in q.assigned_paths(n) for n in q.walk_body(sc.node))
+    if not declared and not assigns_g:
+        # the id may be published through a helper: a VIOLATION needs the assignment to be visibly local-only
+        others = [c for c in q.calls(sc.node) if q.dotted(c.func) not in ("os.fork", "_reseed_random")]
+        if others:
+            raise AnalysisError("start_child neither assigns %s nor declares it global, but calls %s: publication through a helper is not followed" % (g, q.unparse(others[0].func)))
     ck.ob("C41.task-id", sc, sc.node, declared, "start_child declares `global %s` (otherwise the assignment is a dead local and task_id() stays None in the worker)" % g, construct="global " + g)
     is_pub = lambda n: n.kind == "stmt" and isinstance(n.ast, ast.Assign) and g in q.assigned_paths(n.ast) and q.dotted(n.ast.value) == idp
     is_rec = lambda n: n.kind == "stmt" and isinstance(n.ast, ast.Assign) and (A.children + "[]") in q.assigned_paths(n.ast)
